@@ -43,12 +43,17 @@ META = {
         "a parser object built (or reset) for that fragment - by a constructor or un-memoised factory on every path to the feed, "
         "whether in tokenize_html or in html_to_nodes itself (html.parser keeps buffered text / CDATA mode between feed() calls) - "
         "and the parser is closed after the feed, so that an unterminated tag/comment at the end of the fragment is part of the "
-        "tree and not silently dropped; between tokenizing and the gate only nodes whose rendering is white space are discarded "
+        "tree and not silently dropped; every end tag the tokenizer is told about either closes an open element or is kept as a node, "
+        "and every start tag is kept with its source text (get_starttag_text -> Tree.nest_* -> Element.raw -> render), which the "
+        "element classes render instead of re-synthesising it from the decoded attribute list; the directive body is rendered with "
+        "source_end_tags=True, Tag.render omits the end tag of an element the source never closes, and the closed flag is unset by "
+        "nest_tag, set by the matching end tag in enclose and kept by deepcopy; between tokenizing and the gate only nodes whose rendering is white space are discarded "
         "(Element.strip's filter and any filtering comprehension on the way are judged by what fails them), and Element.strip is "
         "applied to the fragment root only, non-recursively: inside a converted element white-space text is content; both html "
         "handlers hand token.content to html_to_nodes and attach all returned nodes. "
         "R2 (GFM filter): the finite language of the filter regex (enumerated from the re._parser tree) is exactly '<' ['/'] tag "
-        "for the nine tags of GFM 6.11, case-insensitive, with a tag-name-terminator look-ahead (read as a set of strings) that accepts "
+        "for the nine tags of GFM 6.11, case-insensitive with ASCII-only folding (re.IGNORECASE on a str pattern without re.ASCII "
+        "also matches U+0130/U+0131/U+017F/U+212A look-alikes that are not on the list), with a tag-name-terminator look-ahead (read as a set of strings) that accepts "
         "every HTML tag-name terminator unconditionally - a terminator accepted only with a continuation, e.g. '/' only as '/>', "
         "is a violation - and no name character; the replacement removes '<'; no count limit; conditional on gfm_only alone; it dominates every use "
         "of the filtered text and every return; when the filtered text is kept in a second variable, the unfiltered parameter is "
@@ -1057,6 +1062,131 @@ def _strip_levels(cx: Ctx, rep: Report, root_names: set[str]) -> None:
                 rep.ok("C17.R1", k, site, "white space between the top-level nodes of the fragment, not recursive")
             else:
                 rep.violation("C17.R1", k, site, f"`{short(n, 50)}` (in {fn.qualname}) drops the white-space-only text nodes among the children of {what}: a blank that is the only thing between two inline elements / references (`<b>a</b> <i>b</i>`) disappears from the Markdown body handed to the directive (`<b>a</b><i>b</i>`), so the inner content is not carried over unchanged")
+    _end_tags_from_source(cx, rep, level, funcs)
+
+
+def _end_tags_from_source(cx: Ctx, rep: Report, level, funcs) -> None:
+    """The body handed to the directive is rendered from the parsed tree: an element whose end tag is missing in the source
+    (`use <b> for bold`, `<foo@example.com>`, `<li>one<li>two`) must not get an invented end tag."""
+    m = cx.mod
+    ph = cx.corpus.mod("parsers.parse_html")
+    # (1) every rendering of tree values in the conversion asks for source end tags only
+    opt = None
+    n_r = 0
+    for fn in funcs:
+        for n in fn.local_nodes():
+            if isinstance(n, ast.Call) and isinstance(n.func, ast.Attribute) and n.func.attr == "render" and level(n.func.value, fn) is not None:
+                n_r += 1
+                kws = [k_ for k_ in n.keywords if k_.arg is not None and isinstance(k_.value, ast.Constant) and k_.value.value is True]
+                st = get_cfg(fn).stmt_of(n)
+                k = f"{m.name}|{short(n.func.value, 30)}.render(...)|{_where(st)}|only end tags present in the source"
+                if kws:
+                    opt = opt or kws[0].arg
+                    rep.ok("C17.R1", k, fn.module.site(n), f"{kws[0].arg}=True")
+                elif any(k_.arg is None for k_ in n.keywords):
+                    raise Unsupported(f"render called with **kwargs in {fn.qualname}")
+                else:
+                    rep.violation("C17.R1", k, fn.module.site(n), f"`{short(n, 50)}` renders the parsed body with the default end-tag policy: every element the source never closes gets an invented end tag (`use <b> for bold` gains `</b>`, `mail <foo@example.com>` a second bogus link, `<li>one<li>two` gains `</li></li>`), so the inner Markdown is not carried over unchanged")
+    if n_r == 0:
+        raise Unsupported("no rendering of the parsed tree found in the html_to_nodes module")
+    if opt is None:
+        return  # all render calls already reported
+    # (2) the element class built for a start tag honours the option: no end tag when the option is on and the element was not closed
+    tree = ph.classes.get("Tree")
+    nest_tag = None
+    tag_cls = None
+    if tree is not None:
+        for meth in tree.methods.values():
+            for c in meth.local_nodes():
+                if isinstance(c, ast.Call) and isinstance(c.func, ast.Name) and c.func.id in ph.classes:
+                    ci = ph.classes[c.func.id]
+                    r_ = cx.corpus.lookup_method(ci, "render")
+                    if r_ is not None and any(isinstance(x, (ast.JoinedStr, ast.Constant)) and "</" in unparse(x) for x in r_.local_nodes()):
+                        nest_tag, tag_cls = meth, ci
+    if tag_cls is None:
+        raise Unsupported("no element class that renders an end tag is constructed by Tree")
+    rnd = cx.corpus.lookup_method(tag_cls, "render")
+    ends = [x for x in rnd.local_nodes() if isinstance(x, ast.JoinedStr) and unparse(x).startswith(("f'</", 'f"</'))]
+    if len(ends) != 1:
+        raise Unsupported(f"{tag_cls.name}.render: expected one end-tag f-string, found {len(ends)}")
+    end = ends[0]
+    k = f"{rnd.fq}|end tag only if closed in the source when {opt} is set"
+    site = ph.site(end)
+    cond = None
+    p_ = parent(end)
+    if isinstance(p_, ast.IfExp) and (p_.body is end or p_.orelse is end):
+        cond = p_.test if p_.body is end else ast.UnaryOp(op=ast.Not(), operand=p_.test)
+    if cond is None:
+        rep.violation("C17.R1", k, site, f"{tag_cls.name}.render adds `</name>` unconditionally: with {opt}=True elements the source never closes still get an end tag")
+        return
+
+    def resolve(e):
+        if isinstance(e, ast.UnaryOp) and isinstance(e.op, ast.Not):
+            return ast.UnaryOp(op=ast.Not(), operand=resolve(e.operand))
+        if isinstance(e, ast.BoolOp):
+            return ast.BoolOp(op=e.op, values=[resolve(v) for v in e.values])
+        if isinstance(e, ast.Name):
+            defs = [n for n in rnd.local_nodes() if isinstance(n, ast.Assign) and len(n.targets) == 1 and isinstance(n.targets[0], ast.Name) and n.targets[0].id == e.id]
+            if len(defs) == 1:
+                return resolve(defs[0].value)
+        return e
+
+    cases = _dnf(cx, resolve(cond))
+    closed_attr = None
+    bad_case = None
+    for case in cases:
+        falsified = False
+        for lit in case:
+            neg = isinstance(lit, ast.UnaryOp) and isinstance(lit.op, ast.Not)
+            atom = lit.operand if neg else lit
+            if neg and any(isinstance(x, ast.Constant) and x.value == opt for x in ast.walk(atom)):
+                falsified = True  # `not kwargs.get(opt)`: false when the option is on
+            if not neg and isinstance(atom, ast.Attribute) and dotted(atom.value) == "self":
+                closed_attr = closed_attr or atom.attr
+                falsified = True  # `self.closed`: false for an element that was not closed
+        if not falsified:
+            bad_case = case
+    if bad_case is not None or closed_attr is None:
+        rep.violation("C17.R1", k, site, f"{tag_cls.name}.render adds `</name>` under `{short(cond, 60)}`, which can hold although {opt} is set and the element was never closed in the source")
+        return
+    rep.ok("C17.R1", k, site, f"emitted iff not {opt} or self.{closed_attr}")
+    # children are rendered with the same options
+    rec = [c for c in rnd.local_nodes() if isinstance(c, ast.Call) and isinstance(c.func, ast.Attribute) and c.func.attr == "render" and not (isinstance(c.func.value, ast.Name) and c.func.value.id == "self")]
+    k = f"{rnd.fq}|options reach the children"
+    if rec and all(any(k_.arg is None for k_ in c.keywords) or any(k_.arg == opt for k_ in c.keywords) for c in rec):
+        rep.ok("C17.R1", k, ph.site(rec[0]), "**kwargs forwarded")
+    elif rec:
+        rep.violation("C17.R1", k, ph.site(rec[0]), f"{tag_cls.name}.render does not pass {opt} on to its children: nested unclosed elements get invented end tags")
+    else:
+        raise Unsupported(f"{tag_cls.name}.render does not render its children")
+    # (3) the flag is maintained: unset when the start tag is nested, set by the matching end tag, kept by deepcopy
+    def sets(fn_, value_pred, extra=lambda st: True):
+        return [n for n in fn_.local_nodes() if isinstance(n, ast.Assign) and len(n.targets) == 1 and isinstance(n.targets[0], ast.Attribute) and n.targets[0].attr == closed_attr and value_pred(n.value) and extra(n)]
+
+    k = f"{nest_tag.fq}|a start tag opens an unclosed element"
+    if sets(nest_tag, lambda v: isinstance(v, ast.Constant) and v.value is False):
+        rep.ok("C17.R1", k, nest_tag.site())
+    else:
+        init = cx.corpus.lookup_method(tag_cls, "__init__")
+        default_false = init is not None and sets(init, lambda v: isinstance(v, ast.Constant) and v.value is False)
+        (rep.ok if default_false else rep.violation)("C17.R1", k, nest_tag.site(), *([] if default_false else [f"{nest_tag.qualname} does not mark the new element as not closed ({closed_attr} = False): every parsed element counts as closed and gets an end tag even when the source has none"]))
+    enc = tree.methods.get("enclose")
+    k = f"{tree.fq}.enclose|the matching end tag closes the element"
+    if enc is None:
+        raise AnchorMissing("Tree.enclose not found")
+    ecfg = get_cfg(enc)
+    closers = sets(enc, lambda v: isinstance(v, ast.Constant) and v.value is True)
+    good = [c for c in closers if any(pol and isinstance(t, ast.Compare) and isinstance(t.ops[0], ast.Eq) and any(isinstance(x, ast.Attribute) and x.attr == "name" for x in ast.walk(t)) for t, pol in ecfg.guards(c))]
+    if good:
+        rep.ok("C17.R1", k, ph.site(good[0]))
+    else:
+        rep.violation("C17.R1", k, enc.site(), f"no `{closed_attr} = True` under the name match in Tree.enclose: elements that ARE closed in the source lose their end tag in the admonition body")
+    dc = cx.corpus.lookup_method(tag_cls, "deepcopy")
+    k = f"{dc.fq if dc else tag_cls.fq}|copies keep the closed flag"
+    if dc is not None and sets(dc, lambda v: isinstance(v, ast.Attribute) and v.attr == closed_attr and dotted(v.value) == "self"):
+        rep.ok("C17.R1", k, dc.site())
+    else:
+        rep.violation("C17.R1", k, dc.site() if dc else ph.site(tag_cls.node), f"deepcopy does not copy `{closed_attr}`: html_to_nodes renders the body from `child.strip()` (a deep copy), whose elements then all count as closed again")
 
 
 def _judge_element_strip(cx: Ctx, rep: Report, meth: FunctionInfo) -> None:
@@ -1144,6 +1274,133 @@ def _judge_drop_filter(cx: Ctx, rep: Report, cond: ast.expr, var: str, k: str, s
         rep.ok("C17.R1", k, site, f"dropped: blank {'/'.join(classes)} (rendered verbatim, i.e. white space)")
 
 
+def _tokenizer_faithful(cx: Ctx, rep: Report) -> None:
+    """What the tokenizer is told about must end up in the tree: an end tag either closes an open element or is kept as a
+    node (else `<img ...>\\n</section>` looks like a lone <img> and the stray end tag vanishes), and a start tag is kept with
+    its source text (else the admonition body is rebuilt from html.parser's decoded attribute list: quotes, character
+    references and `<https://...>` autolinks are rewritten)."""
+    from ..flow import facts
+
+    ph = cx.corpus.mod("parsers.parse_html")
+    cands = [c_ for c_ in ph.classes.values() if any(b_.endswith("HTMLParser") for b_ in cx.corpus.external_bases(c_))]
+    if len(cands) != 1:
+        raise Unsupported(f"expected one HTMLParser subclass in parse_html, found {len(cands)}")
+    ci = cands[0]
+    # ---- end tags ----
+    he = ci.methods.get("handle_endtag")
+    if he is None:
+        rep.violation("C17.R1", f"{ci.fq}.handle_endtag|every end tag closes an element or leaves a node", ph.site(ci.node), "end tags are not handled at all")
+    else:
+        cfg = get_cfg(he)
+        name_p = he.params[1] if len(he.params) > 1 else None
+        paths: list[tuple[list, list]] = []
+        stack = [("ENTRY", [], [])]
+        steps = 0
+        while stack:
+            node, fs, sts = stack.pop()
+            steps += 1
+            if steps > 400:
+                raise Unsupported("handle_endtag has too many paths")
+            for nx in cfg.succ.get(node, []):
+                if nx == "EXIT":
+                    paths.append((fs, sts))
+                elif nx == "RAISE":
+                    continue
+                elif isinstance(nx, tuple) and nx[0] in ("T", "F") and isinstance(nx[1], ast.If):
+                    stack.append((nx, fs + [(nx[1].test, nx[0] == "T")], sts))
+                elif isinstance(nx, tuple):
+                    raise Unsupported("handle_endtag uses try/loops")
+                elif isinstance(nx, (ast.While, ast.For, ast.Try)):
+                    raise Unsupported("handle_endtag uses try/loops")
+                else:
+                    stack.append((nx, fs, sts + [nx]))
+        seen_cases = set()
+        for fs, sts in paths:
+            nests = any(isinstance(c, ast.Call) and isinstance(c.func, ast.Attribute) and c.func.attr.startswith("nest_") for st in sts if not isinstance(st, ast.If) for c in ast.walk(st))
+            lits = [t if pol else ast.UnaryOp(op=ast.Not(), operand=t) for t, pol in fs]
+            cases = _dnf(cx, ast.BoolOp(op=ast.And(), values=lits)) if lits else [[]]
+            for case in cases:
+                closes = any(not (isinstance(l, ast.UnaryOp) and isinstance(l.op, ast.Not)) and isinstance(l, ast.Call) and isinstance(l.func, ast.Attribute) and l.func.attr == "enclose" for l in case)
+                desc = " and ".join(sorted(_lit_text(l) for l in case)) or "always"
+                if desc in seen_cases:
+                    continue
+                seen_cases.add(desc)
+                k = f"{he.fq}|every end tag closes an element or leaves a node|when {desc}"
+                if nests or closes:
+                    rep.ok("C17.R1", k, he.site(), "kept as a node" if nests else "closes the open element")
+                else:
+                    rep.violation("C17.R1", k, he.site(), f"when `{desc}` the end tag `</{name_p}>` neither closes an open element nor is kept in the tree: it vanishes from the fragment, so `<img src=\"a.png\">\\n</br>` looks like a lone <img>, is converted to an image and the end tag is lost instead of the block passing through as raw HTML with exactly its source text")
+    # ---- start tags keep their source text ----
+    tree = ph.classes.get("Tree")
+    for cb in ("handle_starttag", "handle_startendtag"):
+        f = ci.methods.get(cb)
+        k = f"{ci.fq}.{cb}|start tag kept with its source text"
+        if f is None:
+            raise Unsupported(f"{ci.name} does not override {cb}")
+        nests = [c for c in f.local_nodes() if isinstance(c, ast.Call) and isinstance(c.func, ast.Attribute) and c.func.attr.startswith("nest_")]
+        if not nests:
+            raise Unsupported(f"{ci.name}.{cb} nests nothing")
+        bad = None
+        for c in nests:
+            idx = next((i for i, a in enumerate(c.args) if unparse(a) == "self.get_starttag_text()"), None)
+            kwn = next((k_.arg for k_ in c.keywords if unparse(k_.value) == "self.get_starttag_text()"), None)
+            if idx is None and kwn is None:
+                bad = f"`{short(c, 60)}` does not hand over the tag's source text (self.get_starttag_text())"
+                break
+            nm = tree.methods.get(c.func.attr) if tree is not None else None
+            if nm is None:
+                raise Unsupported(f"Tree.{c.func.attr} not found")
+            par = kwn or (nm.params[idx + 1] if idx + 1 < len(nm.params) else None)
+            ctor = next((x for x in nm.local_nodes() if isinstance(x, ast.Call) and isinstance(x.func, ast.Name) and x.func.id in ph.classes), None)
+            if ctor is None or par is None:
+                raise Unsupported(f"Tree.{nm.name}: constructor call not found")
+            j = next((i for i, a in enumerate(ctor.args) if isinstance(a, ast.Name) and a.id == par), None)
+            kj = next((k_.arg for k_ in ctor.keywords if isinstance(k_.value, ast.Name) and k_.value.id == par), None)
+            if j is None and kj is None:
+                bad = f"Tree.{nm.name} does not pass `{par}` on to {ctor.func.id}(...)"
+                break
+            ecls = ph.classes[ctor.func.id]
+            init = cx.corpus.lookup_method(ecls, "__init__")
+            q = kj or (init.params[j + 1] if init is not None and j + 1 < len(init.params) else None)
+            attr = None
+            if init is not None and q is not None:
+                for st in init.local_nodes():
+                    if isinstance(st, ast.Assign) and isinstance(st.targets[0], ast.Attribute) and dotted(st.targets[0].value) == "self" and isinstance(st.value, ast.Name) and st.value.id == q:
+                        attr = st.targets[0].attr
+            if attr is None:
+                bad = f"{ecls.name}.__init__ does not store the source text of the tag"
+                break
+            rnd = cx.corpus.lookup_method(ecls, "render")
+            uses = False
+            for r_ in [n for n in rnd.local_nodes() if isinstance(n, ast.Return)] if rnd is not None else []:
+                first = _split_add(r_.value)[0] if r_.value is not None else None
+                if isinstance(first, ast.Call) and isinstance(first.func, ast.Attribute) and dotted(first.func.value) == "self":
+                    hm = cx.corpus.lookup_method(ecls, first.func.attr)
+                    if hm is not None:
+                        hcfg = get_cfg(hm)
+                        for hr in [n for n in hm.local_nodes() if isinstance(n, ast.Return)]:
+                            if unparse(hr.value) == f"self.{attr}" and any(pol and unparse(t) == f"self.{attr} is not None" for t, pol in hcfg.guards(hr)):
+                                uses = True
+                            if unparse(hr.value) == f"self.{attr}" and not hcfg.guards(hr):
+                                uses = True
+            if not uses:
+                bad = f"{ecls.name}.render does not start with the stored source text (self.{attr}) of the tag"
+                break
+        if bad is None:
+            rep.ok("C17.R1", k, f.site(), "get_starttag_text() -> Tree.nest_* -> Element.raw -> render")
+        else:
+            rep.violation("C17.R1", k, f.site(), f"{bad}: the start tag is rebuilt from html.parser's decoded name/attribute list when the admonition body is rendered back, so `<span title='say \"hi\"'>` becomes `<span title=\"say \"hi\"\">`, `&amp;` in attribute values is decoded and the autolink `<https://example.com>` becomes `<https: example.com>`: the inner Markdown is not carried over unchanged")
+
+
+def _lit_text(l: ast.expr) -> str:
+    neg = isinstance(l, ast.UnaryOp) and isinstance(l.op, ast.Not)
+    a = l.operand if neg else l
+    if isinstance(a, ast.Compare) and len(a.ops) == 1 and isinstance(a.ops[0], (ast.In, ast.NotIn)) and neg:
+        flipped = ast.Compare(left=a.left, ops=[ast.NotIn() if isinstance(a.ops[0], ast.In) else ast.In()], comparators=a.comparators)
+        return unparse(flipped)
+    return ("not " if neg else "") + unparse(a)
+
+
 def _whole_fragment_consumed(cx: Ctx, rep: Report, tk: FunctionInfo, feed: ast.Call) -> None:
     """html.parser keeps an unterminated tag / comment / reference at the end of the input in ``rawdata`` until close()
     is called; without it that tail is in no node of the tree, so `<img src=a>\\n<b` looks like a lone <img>, is converted,
@@ -1216,6 +1473,7 @@ def _fresh_tokenizer(cx: Ctx, rep: Report) -> None:
     tm = tk.module
     recv = feed.func.value
     _whole_fragment_consumed(cx, rep, tk, feed)
+    _tokenizer_faithful(cx, rep)
     k = f"{tk.fq}|parser state is per fragment"
     site = tm.site(feed)
 
@@ -1497,8 +1755,11 @@ def r2_gfm_filter(corpus: Corpus, rep: Report, tier: str):
     else:
         rep.ok("C17.R2", k, rx_site)
     k = f"{pre}|case-insensitive"
-    if flags & re.IGNORECASE:
-        rep.ok("C17.R2", k, rx_site)
+    fold = sorted({c for t_ in tags for c in t_ if c in "iIsSkK"})
+    if flags & re.IGNORECASE and not (flags & re.ASCII) and fold:
+        rep.violation("C17.R2", k, rx_site, f"IGNORECASE on a str pattern without re.ASCII uses Unicode case folding: {fold!r} in the tag names also match U+0130/U+0131 (dotted/dotless i), U+017F (long s) and U+212A (Kelvin sign), so `<tıtle>`, `<scrıpt>`, `<noframeſ>` - names that are not on the GFM list - are rewritten to `&lt;...`")
+    elif flags & re.IGNORECASE:
+        rep.ok("C17.R2", k, rx_site, "ASCII-only case folding")
     else:
         rep.violation("C17.R2", k, rx_site, "without IGNORECASE `<SCRIPT>` / `<Script>` are not neutralised (HTML tag names are case-insensitive)")
     k = f"{pre}|tag-name terminator"
@@ -2464,7 +2725,34 @@ def r5_raw_nodes_survive(corpus: Corpus, rep: Report, tier: str):
                 if copies and len(copies) == len(stores) and any(cfg.dominates(c, loop) for c in copies):
                     rep.ok("C17.R5", k, site, f"{root.id} is a deep copy on every path")
                     continue
-                if stores and not copies and not all(isinstance(parent(x), ast.Assign) and isinstance(parent(x).value, (ast.Name, ast.Attribute, ast.Subscript)) for x in stores):
+                def is_live(e, depth=0) -> bool:
+                    """part of the document tree itself: a parameter, something reached from one, or a loop variable over such"""
+                    if depth > 4:
+                        return False
+                    if isinstance(e, ast.Starred):
+                        return is_live(e.value, depth + 1)
+                    if isinstance(e, (ast.Tuple, ast.List)):
+                        return bool(e.elts) and all(is_live(x, depth + 1) for x in e.elts)
+                    if isinstance(e, (ast.Attribute, ast.Subscript)):
+                        return is_live(e.value, depth + 1)
+                    if isinstance(e, ast.Name):
+                        sts = [x for x in fn.local_nodes() if isinstance(x, ast.Name) and x.id == e.id and isinstance(x.ctx, ast.Store)]
+                        if not sts:
+                            return e.id in fn.params
+                        for x in sts:
+                            p_ = parent(x)
+                            if isinstance(p_, ast.For) and p_.target is x:
+                                if not is_live(p_.iter, depth + 1):
+                                    return False
+                            elif isinstance(p_, ast.Assign) and not _is_deepcopy(p_.value, m):
+                                if not is_live(p_.value, depth + 1):
+                                    return False
+                            else:
+                                return False
+                        return True
+                    return False
+
+                if stores and not copies and not is_live(root):
                     raise Unsupported(f"{fn.qualname}: cannot tell whether `{root.id}` (`{short(parent(stores[0]), 40)}`) is a copy of the tree")
                 if copies:
                     rep.violation("C17.R5", k, site, f"`{short(muts[0], 40)}` removes raw nodes from `{root.id}`, which is a deep copy only on some paths (`{short(copies[0], 40)}` does not dominate the loop): on the others the raw HTML nodes are deleted from the document itself, e.g. inline HTML in a heading disappears from the output")
@@ -2779,7 +3067,7 @@ def mutants(corpus: Corpus):
         pf = corpus.func(f"{modname}:{q}")
         g_ = find_node(pf, lambda n: isinstance(n, ast.If) and "raw_enabled" in unparse(n.test))
         if g_ is not None:
-            add(f"c17-raw-filter-unconditional-{modname.split('.')[-1]}", "C17.R5", splice(pf.module.src, g_.test, "True"), "raw nodes of document", rel_=pf.module.rel, canary=(modname == "parsers.sphinx_"))
+            add(f"c17-raw-filter-unconditional-{modname.split('.')[-1]}", "C17.R5", splice(pf.module.src, g_.test, "True"), "raw nodes of", rel_=pf.module.rel, canary=(modname == "parsers.sphinx_"))
     # ---- R6: extension switch restored ----
     fm = corpus.func("sphinx_ext.directives:FigureMarkdown.run")
     sv_ = find_stmt(fm, lambda s_: isinstance(s_, ast.Assign) and isinstance(s_.value, ast.Call) and (dotted(s_.value.func) or "") == "copy" and (dotted(s_.value.args[0]) or "").endswith(".enable_extensions"))
@@ -2824,15 +3112,68 @@ def mutants(corpus: Corpus):
         g_ = find_node(pf, lambda n: isinstance(n, ast.If) and "raw_enabled" in unparse(n.test) and isinstance(n.test, ast.UnaryOp))
         if g_ is not None:
             inner = ast.get_source_segment(pf.module.src, g_.test.operand)
-            add(f"c17-raw-filter-also-on-file-insertion-{modname.split('.')[-1]}", "C17.R5", splice(pf.module.src, g_.test, f'not ({inner} and getattr(document.settings, "file_insertion_enabled", True))'), "raw nodes of document", rel_=pf.module.rel, note="seed class: filter fires while raw content is enabled")
+            add(f"c17-raw-filter-also-on-file-insertion-{modname.split('.')[-1]}", "C17.R5", splice(pf.module.src, g_.test, f'not ({inner} and getattr(document.settings, "file_insertion_enabled", True))'), "raw nodes of", rel_=pf.module.rel, note="seed class: filter fires while raw content is enabled")
             ga = find_node(pf, lambda n: isinstance(n, ast.Call) and dotted(n.func) == "getattr" and len(n.args) == 3 and isinstance(n.args[1], ast.Constant) and n.args[1].value == "raw_enabled")
             if ga is not None and modname == "parsers.docutils_":
-                add("c17-raw-filter-default-false", "C17.R5", splice(pf.module.src, ga.args[2], "False"), "raw nodes of document", rel_=pf.module.rel)
+                add("c17-raw-filter-default-false", "C17.R5", splice(pf.module.src, ga.args[2], "False"), "raw nodes of", rel_=pf.module.rel)
     hfeed = corpus.lookup_method(corpus.cls("parsers.parse_html:HtmlToAst"), "feed")
     if hfeed is not None:
         cl = find_stmt(hfeed, lambda s_: isinstance(s_, ast.Expr) and isinstance(s_.value, ast.Call) and unparse(s_.value.func) in ("self.close", "super().close"))
         if cl is not None:
             add("c17-parser-not-closed-after-feed", "C17.R1", splice(hfeed.module.src, cl, "pass"), "close after feed", rel_=hfeed.module.rel, note="revert: unterminated tail of the fragment is dropped")
+    # ---- reverts of the round-10 repairs (9f86d61, 991316c, 95adc42, 0ccf3c3) ----
+    phm = corpus.mod("parsers.parse_html")
+    psrc = phm.src
+    hcls = corpus.cls("parsers.parse_html:HtmlToAst")
+    he_ = hcls.methods.get("handle_endtag")
+    if he_ is not None:
+        iff = find_stmt(he_, lambda s_: isinstance(s_, ast.If) and any(isinstance(c, ast.Call) and isinstance(c.func, ast.Attribute) and c.func.attr == "enclose" for c in ast.walk(s_.test)))
+        if iff is not None:
+            enc_call = next(c for c in ast.walk(iff.test) if isinstance(c, ast.Call) and isinstance(c.func, ast.Attribute) and c.func.attr == "enclose")
+            ind = " " * iff.col_offset
+            add("c17-stray-end-tag-dropped", "C17.R1", splice(psrc, iff, f"if {he_.params[1]} not in self.void_elements:\n{ind}    {ast.get_source_segment(psrc, enc_call)}"), "every end tag closes an element or leaves a node", rel_=phm.rel, canary=True, note="revert 9f86d61: `<img ...>\\n</section>` converted, end tag lost")
+        else:
+            out.append(("c17-stray-end-tag-dropped", "handle_endtag has no `if ... enclose(...)` test"))
+    hs_ = hcls.methods.get("handle_starttag")
+    if hs_ is not None:
+        g1 = find_node(hs_, lambda n: isinstance(n, ast.Call) and unparse(n) == "self.get_starttag_text()" and isinstance(parent(n), ast.Call) and "nest_tag" in unparse(parent(n).func))
+        if g1 is not None:
+            add("c17-start-tag-rebuilt-from-attrs", "C17.R1", splice(psrc, g1, "None"), "start tag kept with its source text", rel_=phm.rel, note="revert 991316c at the Tag site")
+    ecl = corpus.cls("parsers.parse_html:Element")
+    rs_ = ecl.methods.get("_render_start")
+    if rs_ is not None:
+        t_ = find_node(rs_, lambda n: isinstance(n, ast.If) and "raw" in unparse(n.test))
+        if t_ is not None:
+            add("c17-render-start-ignores-source", "C17.R1", splice(psrc, t_.test, "False"), "start tag kept with its source text", rel_=phm.rel)
+    rcalls = sorted((n for n in fi.local_nodes() if isinstance(n, ast.Call) and isinstance(n.func, ast.Attribute) and n.func.attr == "render" and any(k_.arg == "source_end_tags" for k_ in n.keywords)), key=lambda n: n.lineno)
+    if rcalls:
+        last = rcalls[-1]
+        add("c17-body-rendered-with-invented-end-tags", "C17.R1", splice(src, last, f"{ast.get_source_segment(src, last.func)}()"), "only end tags present in the source", note="revert 95adc42 in html_to_nodes")
+    else:
+        out.append(("c17-body-rendered-with-invented-end-tags", "no render(source_end_tags=...) call in html_to_nodes"))
+    tcls = corpus.cls("parsers.parse_html:Tag")
+    tr_ = tcls.methods.get("render")
+    if tr_ is not None:
+        sk = find_stmt(tr_, lambda s_: isinstance(s_, ast.Assign) and "source_end_tags" in unparse(s_.value))
+        if sk is not None:
+            add("c17-tag-render-always-closes", "C17.R1", splice(psrc, sk.value, "False"), "end tag only if closed", rel_=phm.rel)
+    dcp = ecl.methods.get("deepcopy")
+    if dcp is not None:
+        cst = find_stmt(dcp, lambda s_: isinstance(s_, ast.Assign) and isinstance(s_.targets[0], ast.Attribute) and s_.targets[0].attr == "closed")
+        if cst is not None:
+            add("c17-deepcopy-forgets-closed-flag", "C17.R1", splice(psrc, cst, "pass"), "copies keep the closed flag", rel_=phm.rel)
+    nt_ = corpus.cls("parsers.parse_html:Tree").methods.get("nest_tag")
+    if nt_ is not None:
+        cst = find_stmt(nt_, lambda s_: isinstance(s_, ast.Assign) and isinstance(s_.targets[0], ast.Attribute) and s_.targets[0].attr == "closed")
+        if cst is not None:
+            add("c17-start-tag-counts-as-closed", "C17.R1", splice(psrc, cst, "pass"), "opens an unclosed element", rel_=phm.rel)
+    if flt.stmt is not None:
+        fl = arg_or_kw(flt.compile_call, 1, "flags")
+        if isinstance(fl, ast.BinOp) and "ASCII" in unparse(fl):
+            keep = fl.left if "ASCII" in unparse(fl.right) else fl.right
+            add("c17-gfm-unicode-case-folding", "C17.R2", splice(src, fl, ast.get_source_segment(src, keep)), "case-insensitive", note="revert 0ccf3c3: <tıtle> rewritten")
+        else:
+            out.append(("c17-gfm-unicode-case-folding", "the filter regex has no `| re.ASCII` flag"))
     tk = corpus.find_function(m.resolve("tokenize_html"))
     if tk is not None:
         asg = find_stmt(tk, lambda s_: isinstance(s_, ast.Assign) and isinstance(s_.value, ast.Call) and corpus.find_class(tk.module.resolve(dotted(s_.value.func) or "")) is not None)
